@@ -18,9 +18,21 @@ pub struct Case {
     pub lines: Vec<B>,
     pub crlf: bool,
     pub final_term: bool,
-    /// true = take from the front, false = from the back
-    pub steps: Vec<bool>,
+    /// operations applied to one iterator, continuing past its end
+    pub steps: Vec<StepOp>,
     pub skip: u8,
+}
+
+#[derive(Clone, Copy, Debug, Serialize, Deserialize, Hash, PartialEq, Eq)]
+pub enum StepOp {
+    /// next()
+    Front,
+    /// next_back()
+    Back,
+    /// nth(k)
+    Nth(u8),
+    /// nth_back(k)
+    NthBack(u8),
 }
 
 pub struct SeqLinesContract;
@@ -91,25 +103,57 @@ pub fn check_seq_lines(c: &Case, ctx: &mut Ctx) -> CheckResult {
     let (mut lo, mut hi) = (0usize, n);
     check_hint("seq_lines", 0, it.size_hint(), Some(it.len()), n)?;
     let mut ended = false;
-    for (i, &front) in c.steps.iter().enumerate() {
-        let got = if front { it.next() } else { it.next_back() };
-        let want = if lo < hi {
-            if front {
-                lo += 1;
-                Some(exp[lo - 1])
-            } else {
-                hi -= 1;
-                Some(exp[hi])
+    for (i, &op) in c.steps.iter().enumerate() {
+        let got = match op {
+            StepOp::Front => it.next(),
+            StepOp::Back => it.next_back(),
+            StepOp::Nth(k) => it.nth(k as usize),
+            StepOp::NthBack(k) => it.nth_back(k as usize),
+        };
+        let want = match op {
+            StepOp::Front => {
+                if lo < hi {
+                    lo += 1;
+                    Some(exp[lo - 1])
+                } else {
+                    None
+                }
             }
-        } else {
-            None
+            StepOp::Back => {
+                if lo < hi {
+                    hi -= 1;
+                    Some(exp[hi])
+                } else {
+                    None
+                }
+            }
+            StepOp::Nth(k) => {
+                let k = k as usize;
+                if lo + k < hi {
+                    lo += k + 1;
+                    Some(exp[lo - 1])
+                } else {
+                    lo = hi; // nth() past the end consumes everything
+                    None
+                }
+            }
+            StepOp::NthBack(k) => {
+                let k = k as usize;
+                if hi - lo > k {
+                    hi -= k + 1;
+                    Some(exp[hi])
+                } else {
+                    hi = lo;
+                    None
+                }
+            }
         };
         ensure!(
             got == want,
             if ended && got.is_some() { "seq_lines/item-after-end".to_string() } else { "seq_lines/wrong-item".to_string() },
-            "step {} ({}): got {:?}, expected {:?}",
+            "step {} ({:?}): got {:?}, expected {:?}",
             i + 1,
-            if front { "next" } else { "next_back" },
+            op,
             got.map(B::new),
             want.map(B::new)
         );
@@ -121,8 +165,11 @@ pub fn check_seq_lines(c: &Case, ctx: &mut Ctx) -> CheckResult {
     if ended {
         ctx.class("stepped past the end");
     }
-    if c.steps.iter().any(|s| *s) && c.steps.iter().any(|s| !*s) {
+    if c.steps.iter().any(|s| matches!(s, StepOp::Front | StepOp::Nth(_))) && c.steps.iter().any(|s| matches!(s, StepOp::Back | StepOp::NthBack(_))) {
         ctx.class("both ends used");
+    }
+    if c.steps.iter().any(|s| matches!(s, StepOp::Nth(_) | StepOp::NthBack(_))) {
+        ctx.class("nth / nth_back used");
     }
     // 2. adaptor programs, compared with the same adaptors over the model vector
     let k = c.skip as usize;
@@ -140,6 +187,31 @@ pub fn check_seq_lines(c: &Case, ctx: &mut Ctx) -> CheckResult {
     ensure!(a == b, "seq_lines/skip", "skip({}) gave {:?}, expected {:?}", k, dbg_items(&a), dbg_items(&b));
     let sk = rec.seq_lines().skip(k);
     check_hint("seq_lines/skip", 0, sk.size_hint(), Some(sk.len()), n.saturating_sub(k))?;
+    // an adaptor driven to its end stays at the end, and so does the underlying iterator
+    let mut sk = rec.seq_lines().skip(k);
+    let mut yielded = 0;
+    while sk.next().is_some() {
+        yielded += 1;
+        ensure!(yielded <= n, "seq_lines/skip-endless", "skip({}) yields more than {} items", k, n);
+    }
+    for _ in 0..2 {
+        check_hint("seq_lines/skip-after-end", yielded, sk.size_hint(), Some(sk.len()), 0)?;
+        ensure!(sk.next().is_none(), "seq_lines/skip/item-after-end", "skip({}) returned an item after it had reported the end", k);
+    }
+    let mut it2 = rec.seq_lines();
+    let first_none = it2.nth(n + k);
+    ensure!(first_none.is_none(), "seq_lines/nth-past-end", "nth({}) on {} lines returned an item", n + k, n);
+    check_hint("seq_lines/after-nth-past-end", 1, it2.size_hint(), Some(it2.len()), 0)?;
+    ensure!(it2.next().is_none() && it2.next_back().is_none(), "seq_lines/item-after-end", "after nth() past the end had returned None, the iterator yields items again");
+    let a: Vec<&[u8]> = rec.seq_lines().step_by(k + 1).collect();
+    let b: Vec<&[u8]> = exp.iter().cloned().step_by(k + 1).collect();
+    ensure!(a == b, "seq_lines/step_by", "step_by({}) gave {:?}, expected {:?}", k + 1, dbg_items(&a), dbg_items(&b));
+    let a: Vec<&[u8]> = rec.seq_lines().take(k).collect();
+    let b: Vec<&[u8]> = exp.iter().cloned().take(k).collect();
+    ensure!(a == b, "seq_lines/take", "take({}) gave {:?}, expected {:?}", k, dbg_items(&a), dbg_items(&b));
+    let a: Vec<&[u8]> = rec.seq_lines().rev().skip(k).collect();
+    let b: Vec<&[u8]> = exp.iter().cloned().rev().skip(k).collect();
+    ensure!(a == b, "seq_lines/rev-skip", "rev().skip({}) gave {:?}, expected {:?}", k, dbg_items(&a), dbg_items(&b));
     let a: Vec<(&[u8], &[u8])> = rec.seq_lines().zip(rec.seq_lines().rev()).collect();
     let b: Vec<(&[u8], &[u8])> = exp.iter().cloned().zip(exp.iter().cloned().rev()).collect();
     ensure!(a == b, "seq_lines/zip", "zip(rev) gave {} pairs, expected {}", a.len(), b.len());
@@ -172,7 +244,7 @@ impl Prop for SeqLinesContract {
     fn strategy(&self, _tier: Tier) -> BoxedStrategy<Case> {
         let line = prop_oneof![1 => Just(vec![]), 5 => vec(prop::sample::select(&b"ACGTN "[..]), 1..12)].prop_map(B);
         boxed(
-            (vec(line, 0..9), any::<bool>(), any::<bool>(), vec(prop::bool::weighted(0.6), 0..13), 0u8..10)
+            (vec(line, 0..9), any::<bool>(), any::<bool>(), vec(prop_oneof![5 => Just(StepOp::Front), 4 => Just(StepOp::Back), 2 => (0u8..10).prop_map(StepOp::Nth), 2 => (0u8..10).prop_map(StepOp::NthBack)], 0..13), 0u8..10)
                 .prop_map(|(lines, crlf, final_term, steps, skip)| Case { lines, crlf, final_term, steps, skip }),
         )
     }
@@ -278,28 +350,41 @@ impl Prop for OtherIterators {
     }
 }
 
-pub const RULE: &str = "sub-check seq-lines: (0..8 sequence lines incl. empty ones, LF/CRLF, step list over {front, back} of length 0..12 continuing past the end, skip count) -> after every step len(), size_hint and the returned item are compared with a Vec model with two indices; adaptor programs enumerate().rev(), rev(), rev().enumerate(), skip(k), zip, enumerate().rev() after partial consumption, count, last are compared with the same adaptors over the model Vec. Exhaustive: all step lists of length <= 8 for 0..=5 lines. Sub-check other-iterators: RecordSetIter, RecordsIter, RecordsIntoIter of both formats walked to the end and beyond: size_hint brackets the truth after every step, None stays None. Non-trivial = >= 2 items and >= 1 step (seq-lines) / >= 2 records (others). Distinct = hash(case).";
+pub const RULE: &str = "sub-check seq-lines: (0..8 sequence lines incl. empty ones, LF/CRLF, step list over {next, next_back, nth(k), nth_back(k)} of length 0..12 continuing past the end, skip count) -> after every step len(), size_hint and the returned item are compared with a Vec model with two indices; adaptor programs enumerate().rev(), rev(), rev().enumerate(), skip(k) (also driven past its end), nth() past the end, step_by, take, rev().skip, zip, enumerate().rev() after partial consumption, count, last are compared with the same adaptors over the model Vec. Exhaustive: all step lists of length <= 8 for 0..=5 lines. Sub-check other-iterators: RecordSetIter, RecordsIter, RecordsIntoIter of both formats walked to the end and beyond: size_hint brackets the truth after every step, None stays None. Non-trivial = >= 2 items and >= 1 step (seq-lines) / >= 2 records (others). Distinct = hash(case).";
 
 pub fn run(tier: Tier) -> i32 {
     let mut run = Run::new("C20", tier, "exploration");
     let p = SeqLinesContract;
     run.replays("seq-lines", &p);
     run.generated("seq-lines", &p, tier.pick(60_000, 3_000_000));
-    run.exhaustive("seq-lines-exhaustive", "all front/back step lists of length 0..=8 x 0..=5 sequence lines x {LF, CRLF}", |ctx| {
+    run.exhaustive("seq-lines-exhaustive", "all step lists over {next, next_back} of length 0..=8 and over {next, next_back, nth(1), nth_back(1), nth(6)} of length 0..=5, x 0..=5 sequence lines x {LF, CRLF}", |ctx| {
         for n in 0..=5usize {
             let lines: Vec<B> = (0..n).map(|i| B(vec![b'A' + i as u8; i % 3])).collect();
             for crlf in [false, true] {
-                for l in 0..=8u32 {
-                    for bits in 0..(1u32 << l) {
-                        let steps: Vec<bool> = (0..l).map(|i| bits >> i & 1 == 1).collect();
-                        let c = Case { lines: lines.clone(), crlf, final_term: true, steps, skip: (bits % 7) as u8 };
-                        ctx.eval();
-                        if n >= 2 && l >= 1 {
-                            ctx.nontrivial(&c, &c);
-                        }
-                        let mut scratch = Ctx::new(false);
-                        if let Err(f) = crate::engine::guarded(|| check_seq_lines(&c, &mut scratch)) {
-                            return Err((serde_json::to_value(&c).unwrap(), f));
+                // (a) all front/back lists up to length 8; (b) all lists up to length 5 over a 5-symbol alphabet with nth / nth_back
+                let alpha2 = [StepOp::Front, StepOp::Back];
+                let alpha5 = [StepOp::Front, StepOp::Back, StepOp::Nth(1), StepOp::NthBack(1), StepOp::Nth(6)];
+                for (alpha, max_l) in [(&alpha2[..], 8u32), (&alpha5[..], 5u32)] {
+                    let k = alpha.len() as u64;
+                    for l in 0..=max_l {
+                        for code in 0..k.pow(l) {
+                            let mut x = code;
+                            let steps: Vec<StepOp> = (0..l)
+                                .map(|_| {
+                                    let s = alpha[(x % k) as usize];
+                                    x /= k;
+                                    s
+                                })
+                                .collect();
+                            let c = Case { lines: lines.clone(), crlf, final_term: true, steps, skip: (code % 7) as u8 };
+                            ctx.eval();
+                            if n >= 2 && l >= 1 {
+                                ctx.nontrivial(&c, &c);
+                            }
+                            let mut scratch = Ctx::new(false);
+                            if let Err(f) = crate::engine::guarded(|| check_seq_lines(&c, &mut scratch)) {
+                                return Err((serde_json::to_value(&c).unwrap(), f));
+                            }
                         }
                     }
                 }
